@@ -45,7 +45,9 @@ RespWith(pv, r) ==
            op == SelectOp(ns, r.opName) IN
        IF op = 0 THEN ErrResp("opselect")
        ELSE IF ~VarsOk(ns, op, r.given) THEN ErrResp("varcoerce")
-       ELSE LET b == BigStep([nodes |-> ns, op |-> op, vars |-> CoercedGiven(ns, op, r.given), overlay |-> <<>>]) IN
+       \* (a request may carry resolver data of its own: `overlay`, e.g. a resolver answering null for a non-null field)
+       ELSE LET b == BigStep([nodes |-> ns, op |-> op, vars |-> CoercedGiven(ns, op, r.given),
+                              overlay |-> IF "overlay" \in DOMAIN r THEN r.overlay ELSE <<>>]) IN
             [cls |-> "exec", data |-> b.data, errs |-> b.errs, nulls |-> b.nulls, calls |-> b.calls]
 
 Solo(r) == RespWith(PV(r.doc), r)
